@@ -83,6 +83,13 @@ func getBackend() (*backendEnv, error) {
 			return nil, fmt.Errorf("append %d: %v %v", i, st, err)
 		}
 		m.Seq, m.UID = uint32(i+1), uint32(i+1)
+		// the model sees the message as stored: every header line, whole body
+		hdrs := map[string]string{}
+		for k, v := range m.Headers {
+			hdrs[k] = v
+		}
+		hdrs["date"] = d.Format("Mon, 02 Jan 2006") + " 12:00:00 +0000"
+		m.Headers = hdrs
 		m.Body = body
 		m.Size = int64(len(text))
 		sizes[m.Size] = true
@@ -180,9 +187,14 @@ func TestPropSearchBackend(t *testing.T) {
 			t.Fatalf("HARNESS: %v", err)
 		}
 		n := rapid.SampledFrom([]int{1, 2, 2, 3, 3, 4}).Draw(t, "nkeys")
+		dom := b.dom
+		dom.heavy = rapid.IntRange(0, 3).Draw(t, "textheavy") == 0
+		if dom.heavy {
+			ev.Class("backend-text-heavy-command")
+		}
 		var keys []key
 		for i := 0; i < n; i++ {
-			keys = append(keys, genKey(t, 2, b.dom))
+			keys = append(keys, genKey(t, 2, dom))
 		}
 		perms, expectN := checkBackendPermutations(t, keys)
 		ev.Eval()
